@@ -43,6 +43,8 @@ type Contract struct {
 	Line     int
 	Bound    bool
 	Replay   []string
+	Lemma    bool
+	Params   []specParam // lemma parameters
 }
 
 type SpecFunc struct {
@@ -67,7 +69,7 @@ type ContractSet struct {
 	tinvs map[string][]*Clause // pkgpath + "." + type name -> invariants over `self`
 }
 
-var clauseRe = regexp.MustCompile(`^(requires|ensures|modifies|inline|trusted|pure|noframe|loop|let|func|spec|replay|type)\b\s*(.*)$`)
+var clauseRe = regexp.MustCompile(`^(requires|ensures|modifies|inline|trusted|pure|noframe|loop|let|func|spec|replay|type|lemma)\b\s*(.*)$`)
 
 func loadContracts(repo string) (*ContractSet, error) {
 	cs := &ContractSet{byKey: map[string]*Contract{}, specs: map[string]*SpecFunc{}, tinvs: map[string][]*Clause{}}
@@ -166,6 +168,23 @@ func (cs *ContractSet) parseFile(repo, path string) error {
 				return fmt.Errorf("%s:%d: duplicate contract for %s", path, ln+1, rest)
 			}
 			cs.byKey[pkgPath+"."+rest] = cur
+		case "lemma":
+			// lemma name(p T, q U)
+			i := strings.Index(rest, "(")
+			j := strings.LastIndex(rest, ")")
+			if i < 0 || j < i {
+				return fmt.Errorf("%s:%d: malformed lemma header", path, ln+1)
+			}
+			name := strings.TrimSpace(rest[:i])
+			cur = &Contract{Key: "lemma:" + name, Pkg: pkgPath, File: path, Line: ln + 1, Lemma: true}
+			for _, p := range splitTop(rest[i+1 : j]) {
+				fs := strings.Fields(p)
+				if len(fs) != 2 {
+					return fmt.Errorf("%s:%d: malformed lemma parameter %q", path, ln+1, p)
+				}
+				cur.Params = append(cur.Params, specParam{fs[0], fs[1]})
+			}
+			cs.byKey[pkgPath+"."+cur.Key] = cur
 		case "type":
 			parts := strings.SplitN(rest, " ", 3)
 			if len(parts) < 3 || parts[1] != "invariant" {
